@@ -47,6 +47,9 @@ EXPLANATION = (
     "transformed only by the enumerated renamings subs / replace / xreplace; a sympy simplifier, normaliser or numeric "
     "evaluation (expand, simplify, factor, cancel, together, nsimplify, powsimp, expand_*, rewrite, evalf, …) applied to it is "
     "a violation, any other expression-returning method an AnalysisError.  "
+    "R8 every comparison of two sympy precedence(...) values in pyrates/backend/** that selects between a parenthesised and a "
+    "bare string adds the parentheses whenever the inserted text does not bind strictly stronger than the expression it is "
+    "inserted into (equal precedence is not associative for **, -, /); synthetic controls run on every check.  "
     "NOT decided: values; names that collide only through equality of two user-chosen names (source variable named like the "
     "target variable of one edge); collisions inside generated operators between two user-derived templates."
 )
@@ -1342,6 +1345,136 @@ def r7_parsed_expression_is_not_rewritten(ctx, rid):
     ctx.require(n >= 1, f"{rid}: no transformation of a parsed expression found (the renaming of arguments in _parse_stack vanished?)")
 
 
+# ================================================================================================
+# R8 argument text spliced into a printed parent expression keeps its parentheses unless it binds strictly stronger
+# ================================================================================================
+
+_R8_CONTROL = '''
+def control(expr, arg, text):
+    if precedence(arg) {op} precedence(expr):
+        text = f"({{text}})"
+    return text
+'''
+
+
+def _wraps_in_parentheses(stmts) -> Optional[ast.AST]:
+    """The expression `"(" + x + ")"` / f"({x})" assigned (or returned / appended) in a statement list, if any."""
+    for st in stmts:
+        for n in ast.walk(st):
+            if isinstance(n, ast.JoinedStr) and len(n.values) >= 3 and isinstance(n.values[0], ast.Constant) and isinstance(n.values[-1], ast.Constant) \
+                    and str(n.values[0].value).endswith("(") and str(n.values[-1].value).startswith(")") \
+                    and any(isinstance(v, ast.FormattedValue) for v in n.values[1:-1]):
+                return n
+            if isinstance(n, ast.BinOp) and isinstance(n.op, ast.Add) and isinstance(n.right, ast.Constant) and str(n.right.value).startswith(")") \
+                    and isinstance(n.left, ast.BinOp) and isinstance(n.left.op, ast.Add) and isinstance(n.left.left, ast.Constant) \
+                    and str(n.left.left.value).endswith("("):
+                return n
+    return None
+
+
+def _precedence_decisions(fnode, is_prec):
+    """[(compare, child arg, parent arg, 'child OP parent' relation under which parentheses are ADDED, wrapped expr, holder)] for
+    every comparison of two precedence(...) values that decides whether a string is wrapped in parentheses."""
+    out = []
+    for holder in [n for n in ast.walk(fnode) if isinstance(n, (ast.If, ast.IfExp))]:
+        cmps = [c for c in ast.walk(holder.test) if isinstance(c, ast.Compare) and len(c.ops) == 1
+                and isinstance(c.left, ast.Call) and is_prec(c.left) and isinstance(c.comparators[0], ast.Call) and is_prec(c.comparators[0])
+                and len(c.left.args) == 1 and len(c.comparators[0].args) == 1]
+        if not cmps:
+            continue
+        body = holder.body if isinstance(holder, ast.If) else [ast.Expr(value=holder.body)]
+        orelse = holder.orelse if isinstance(holder, ast.If) else [ast.Expr(value=holder.orelse)]
+        wb, wo = _wraps_in_parentheses(body), _wraps_in_parentheses(orelse)
+        if (wb is None) == (wo is None):
+            continue                    # not a decision about parentheses (or both branches wrap)
+        for c in cmps:
+            # polarity of the comparison inside the test (under `not`)
+            pol, x = True, c
+            while parent(x) is not None and x is not holder.test:
+                x = parent(x)
+                if isinstance(x, ast.UnaryOp) and isinstance(x.op, ast.Not):
+                    pol = not pol
+            adds_when_true = (wb is not None) == pol
+            out.append((c, c.left.args[0], c.comparators[0].args[0], type(c.ops[0]), adds_when_true, wb if wb is not None else wo, holder))
+    return out
+
+
+def r8_spliced_argument_text_keeps_parentheses(ctx, rid):
+    """When the printed text of a processed argument is inserted into the printed text of its parent expression, the argument
+    must be set in parentheses unless it binds STRICTLY stronger than the parent: at equal precedence `**`, `-` and `/` are not
+    associative ((x**a)**b is not x**a**b, a - (b - c) is not a - b - c).  Decided for every comparison of two
+    sympy `precedence(...)` values in pyrates/backend/** that selects between a parenthesised and a bare string: with c the
+    precedence of the inserted text and p that of the expression it is inserted into, parentheses must be added whenever c <= p."""
+    def is_prec_in(module):
+        return lambda call: (ctx.repo.external_name(module, call.func) or "").endswith("precedence.precedence") or \
+            ((ctx.repo.external_name(module, call.func) or "").startswith("sympy.") and call_name(call) in ("precedence", "precedence_traditional"))
+    # controls
+    for op, want_bad in (("<", True), ("<=", False)):
+        tree = ast.parse(_R8_CONTROL.format(op=op))
+        from engine.srcmodel import set_parents
+        set_parents(tree)
+        dec = _precedence_decisions(tree.body[0], lambda call: call_name(call) == "precedence")
+        if len(dec) != 1 or (_r8_verdict(dec[0], {"arg"}, {"expr"})[0] == "bad") != want_bad:
+            raise AnalysisError(f"{rid}: positive control failed — the precedence comparison `{op}` is no longer judged as expected")
+    n_calls = n_dec = 0
+    for f in ctx.repo.all_functions():
+        if not f.module.rel.startswith("pyrates/backend/"):
+            continue
+        is_prec = is_prec_in(f.module)
+        n_calls += sum(1 for c in walk_shallow(f.node) if isinstance(c, ast.Call) and is_prec(c))
+        for dec in _precedence_decisions(f.node, is_prec):
+            cmpn, a1, a2, op, adds_true, wrapped, holder = dec
+            # which operand is the inserted text?  the one whose name the wrapped string is derived from
+            wrapped_ids = set()
+            for n in ast.walk(wrapped):
+                if isinstance(n, ast.Name):
+                    wrapped_ids.add(n.id)
+                    for d in ctx.rd(f).defs_reaching(n) if isinstance(n.ctx, ast.Load) and hasattr(n, "_parent") else []:
+                        v = assigned_value(d, n.id)
+                        if v is not None:
+                            wrapped_ids |= load_ids(v)
+            verdict, text = _r8_verdict(dec, wrapped_ids, None)
+            st = stmt_of(ctx.cfg(f), cmpn)
+            n_dec += 1
+            label = f"parenthesisation by `{ast.unparse(cmpn)}`"
+            if verdict is None:
+                raise AnalysisError(f"{rid}: {f.qual}: `{ast.unparse(cmpn)}` decides about parentheses, but which operand is the inserted text "
+                                    f"could not be told (unrecognised form)")
+            if verdict == "bad":
+                ctx.violation(rid, f, st, f"`{ast.unparse(holder.test)[:140]}` sets the inserted argument text in parentheses only when {text}; at "
+                                          f"equal precedence the text is inserted bare, but `**`, `-` and `/` are not associative: a power "
+                                          f"inside a power prints as `x**a**b` (= x**(a**b)) instead of `(x**a)**b`", label=label)
+            else:
+                ctx.ok(rid, f, st, f"parentheses are added whenever {text}", label=label)
+    ctx.ok(rid, None, None, f"controls: a strict precedence comparison is reported, the non-strict one accepted; {n_calls} precedence(...) "
+                            f"calls and {n_dec} parenthesisation decisions found in pyrates/backend/**", construct="rules/c05.py::_R8_CONTROL",
+           loc="rules/c05.py", nontrivial=False)
+
+
+def _r8_verdict(dec, wrapped_ids, parent_ids):
+    """('ok'|'bad'|None, text): are parentheses added whenever precedence(child) <= precedence(parent)?"""
+    cmpn, a1, a2, op, adds_true, _wrapped, _holder = dec
+    n1, n2 = load_ids(a1), load_ids(a2)
+    if n1 & wrapped_ids and not (n2 & wrapped_ids):
+        child_left = True
+    elif n2 & wrapped_ids and not (n1 & wrapped_ids):
+        child_left = False
+    elif parent_ids is not None and n2 & parent_ids:
+        child_left = True
+    else:
+        return None, ""
+    # relation `child REL parent` that holds on the branch which adds parentheses
+    rel = {ast.Lt: "<", ast.LtE: "<=", ast.Gt: ">", ast.GtE: ">=", ast.Eq: "==", ast.NotEq: "!="}.get(op)
+    if rel is None:
+        return None, ""
+    if not child_left:
+        rel = {"<": ">", "<=": ">=", ">": "<", ">=": "<=", "==": "==", "!=": "!="}[rel]
+    if not adds_true:
+        rel = {"<": ">=", "<=": ">", ">": "<=", ">=": "<", "==": "!=", "!=": "=="}[rel]
+    text = f"precedence(inserted text) {rel} precedence(parent)"
+    return ("ok" if rel in ("<=",) else "bad"), text
+
+
 RULES = [
     ("C05-R1", r4_fresh_name_generator, 6),
     ("C05-R2", r2_generated_names_never_overwrite, 3),
@@ -1350,4 +1483,5 @@ RULES = [
     ("C05-R5", r5_literals_inlined_exactly, 1),
     ("C05-R6", r6_scope_membership_by_path_components, 1),
     ("C05-R7", r7_parsed_expression_is_not_rewritten, 2),
+    ("C05-R8", r8_spliced_argument_text_keeps_parentheses, 1),
 ]
